@@ -54,6 +54,14 @@ CHECKS = {
                 text="Generated contracts with hostile constants/idioms and long blocks run through the real CLI entry under a CPU budget; any escaping exception, budget hit (confirmed in a fresh child under RLIMIT_CPU/RLIMIT_AS) or missing output is a violation; for a share of the contracts the analysis of one block is forced to raise and the output is compared block by block with the fault-free run.",
                 note="bulk runs are in-process with a soft timer (forked children are serialized by this hypervisor); every failure is decided by a forked run under hard limits; fault injection only under the deterministic -greedy back-end",
                 ref="DESIGN.md section 3 C10"),
+    "C12": dict(level="exploration", technique="model-based stateful testing (Hypothesis RuleBasedStateMachine): histories of block-processing calls in one process without state reset; model = the same block on pristine module state (cross-checked against fresh forked processes)",
+                text="Random call histories of up to 30-50 blocks under fixed options; after every step the full observable result of the block (specifications with identifiers, sub-blocks, optimized code, log, statistics) must equal its fresh-process result; any leaked global that changes a later result is caught on the explored histories.",
+                note="pristine state emulated by restoring the data globals of the tool's stateful modules to their import-time snapshot, validated on a sample against real fresh processes each run; greedy back-end only",
+                ref="DESIGN.md section 3 C12"),
+    "C13": dict(level="exploration", technique="differential testing across processes: the same generated inputs are evaluated by 4 long-lived tool processes started with different PYTHONHASHSEED values under full machine load; outputs compared field by field",
+                text="Specifications (identifiers included), greedy id lists, emitted .smt2 text and whole-contract outputs/logs/statistics must be identical across string-hash seeds, working directories and process instances for every generated input.",
+                note="Max-SMT results are excluded (solver time-outs), their problem text is compared instead; load = 16 busy workers",
+                ref="DESIGN.md section 3 C13"),
 }
 
 NOT_YET = {}
